@@ -12,12 +12,13 @@ import (
 	"math/big"
 	"strconv"
 	"strings"
+	"time"
 
 	"github.com/blinklabs-io/gouroboros/vrf"
 )
 
 func init() {
-	register(&Prop{ID: "C38", Gen: genC38, Run: runC38})
+	register(&Prop{ID: "C38", Gen: genC38, Run: runC38, Timeout: 3 * time.Minute})
 }
 
 var c38SmallOrder = []string{
@@ -51,6 +52,8 @@ func runC38(op string) string {
 		return "bad-op"
 	}
 	switch f[1] {
+	case "x":
+		return g8RunVrfX(f)
 	case "pv":
 		if len(f) != 4 {
 			return "bad-op"
@@ -179,6 +182,16 @@ func genC38(r *Rand, n int, tier string, emit func(string)) {
 		alpha := r.Bytes(Pick(r, 0, 1, 32, 32, 32, 100))
 		emit(fmt.Sprintf("vrf pv %s %s", hexs(seed), hexs(alpha)))
 		i++
+		// oracle-tied runs: the prover's and verifier's intermediate values, by name
+		for k := 0; k < 3; k++ {
+			oalpha := r.Bytes(len(alpha) + 1 - r.Intn(2)*min(len(alpha), 1))
+			if bytes.Equal(oalpha, alpha) {
+				oalpha = append(oalpha, 1)
+			}
+			emit(fmt.Sprintf("vrf x %s %s %s %s %s", hexs(seed), hexs(r.Bytes(32)), hexs(alpha), hexs(oalpha),
+				g8VrfCases[r.Intn(len(g8VrfCases))]))
+			i++
+		}
 		if r.Chance(1, 8) {
 			emit(fmt.Sprintf("vrf noncanon %s %s", hexs(seed), hexs(alpha)))
 			i++
